@@ -1254,4 +1254,140 @@ theorem coletree_eq_etreeDef (nr nc : Nat) (col : Nat → List Nat)
   refine Least.unique (fun i hvi hin => ?_) (l1 v hv) (l2 v hv)
   exact ⟨T.map (GE_of_SE hrow), fun h => T_star_of_T_ata hrow h (Or.inr (Nat.le_refl _))⟩
 
+/-! ### Part F: variants -/
+
+/-- Liu's algorithm only depends on the graph of its lists -/
+theorem liu_congr (nc : Nat) (nbrs nbrs' : Nat → List Nat)
+    (h : ∀ a b, b < a → a < nc → (b ∈ nbrs a ↔ b ∈ nbrs' a)) : liu nc nbrs = liu nc nbrs' := by
+  obtain ⟨s1, l1⟩ := liu_least nc nbrs
+  obtain ⟨s2, l2⟩ := liu_least nc nbrs'
+  refine array_ext_getD s1 s2 (fun v hv => ?_)
+  refine Least.unique (fun i _ _ => ?_) (l1 v hv) (l2 v hv)
+  have hse : ∀ a b, SE nbrs nc a b ↔ SE nbrs' nc a b := by
+    intro a b
+    unfold SE
+    constructor
+    · rintro (⟨h1, h2, h3⟩ | ⟨h1, h2, h3⟩)
+      · exact Or.inl ⟨h1, h2, (h a b h1 h2).mp h3⟩
+      · exact Or.inr ⟨h1, h2, (h b a h1 h2).mp h3⟩
+    · rintro (⟨h1, h2, h3⟩ | ⟨h1, h2, h3⟩)
+      · exact Or.inl ⟨h1, h2, (h a b h1 h2).mpr h3⟩
+      · exact Or.inr ⟨h1, h2, (h b a h1 h2).mpr h3⟩
+  exact ⟨T.map fun a b => (hse a b).mp, T.map fun a b => (hse a b).mpr⟩
+
+/-- the graph of a structurally symmetric pattern -/
+def SymE (n : Nat) (col : Nat → List Nat) (a b : Nat) : Prop :=
+  a < n ∧ b < n ∧ a ≠ b ∧ (a ∈ col b ∨ b ∈ col a)
+
+theorem symAdj_sq (n : Nat) (col : Nat → List Nat) : Sq n (symAdj n col) := by
+  unfold symAdj
+  refine ⟨by simp, fun i hi => ?_⟩
+  simp [Array.getD_eq_getD_getElem?, hi]
+
+theorem symAdj_get (n : Nat) (col : Nat → List Nat) (i j : Nat) (hi : i < n) (hj : j < n) :
+    adjGet (symAdj n col) i j = true ↔ SymE n col i j := by
+  unfold symAdj adjGet SymE
+  simp only [Array.getD_eq_getD_getElem?, Array.getElem?_map, Array.getElem?_range, hi, hj, if_true,
+    Option.map_some, Option.getD_some]
+  simp only [Bool.and_eq_true, bne_iff_ne, ne_eq, Bool.or_eq_true, List.contains_iff_mem, true_and]
+
+/-- **The symmetric algorithm** (`sp_symetree`) on a structurally symmetric pattern computes the
+elimination tree of its graph. -/
+theorem symetree_eq_etreeOfGraph (n : Nat) (col : Nat → List Nat)
+    (hsym : ∀ i j, i < n → j < n → i ∈ col j → j ∈ col i) :
+    symetree n col = etreeOfGraph n (symAdj n col) := by
+  unfold symetree
+  obtain ⟨s1, l1⟩ := liu_least n col
+  obtain ⟨s2, l2⟩ := etreeOfGraph_least (E := SymE n col)
+    (fun a b h => ⟨h.2.1, h.1, h.2.2.1.symm, h.2.2.2.symm⟩) (fun a b h => h.2.2.1) n
+    (symAdj n col) (symAdj_sq n col) (symAdj_get n col)
+  refine array_ext_getD s1 s2 (fun v hv => ?_)
+  refine Least.unique (fun i _ _ => ?_) (l1 v hv) (l2 v hv)
+  have hse : ∀ a b, SE col n a b ↔ SymE n col a b := by
+    intro a b
+    unfold SE SymE
+    constructor
+    · rintro (⟨h1, h2, h3⟩ | ⟨h1, h2, h3⟩)
+      · exact ⟨h2, by omega, by omega, Or.inr h3⟩
+      · exact ⟨by omega, h2, by omega, Or.inl h3⟩
+    · rintro ⟨h1, h2, h3, h4⟩
+      rcases Nat.lt_or_gt_of_ne h3 with h | h
+      · refine Or.inr ⟨h, h2, ?_⟩
+        rcases h4 with h4 | h4
+        · exact h4
+        · exact hsym b a h2 h1 h4
+      · refine Or.inl ⟨h, h1, ?_⟩
+        rcases h4 with h4 | h4
+        · exact hsym a b h1 h2 h4
+        · exact h4
+  exact ⟨T.map fun a b => (hse a b).mp, T.map fun a b => (hse a b).mpr⟩
+
+/-- **The first-column trick is correct**: Liu's algorithm on the first-column stars of A gives the same
+tree as the symmetric algorithm on the explicitly formed pattern of AᵀA. -/
+theorem coletree_eq_symetree_ata (nr nc : Nat) (col : Nat → List Nat)
+    (hrow : ∀ c, c < nc → ∀ r ∈ col c, r < nr) :
+    coletree nr nc col = symetree nc (ataCol nc col) := by
+  rw [coletree_eq_liu]
+  unfold symetree
+  obtain ⟨s1, l1⟩ := liu_least nc (starNbrs nr nc col)
+  obtain ⟨s2, l2⟩ := liu_least nc (ataCol nc col)
+  refine array_ext_getD s1 s2 (fun v hv => ?_)
+  refine Least.unique (fun i _ _ => ?_) (l1 v hv) (l2 v hv)
+  have hse : ∀ a b, SE (ataCol nc col) nc a b ↔ GE nc col a b := by
+    intro a b
+    unfold SE GE
+    simp only [mem_ataCol]
+    constructor
+    · rintro (⟨h1, h2, h3, h4, k, h5, h6⟩ | ⟨h1, h2, h3, h4, k, h5, h6⟩)
+      · exact ⟨h2, h4, h3.symm, k, h6, h5⟩
+      · exact ⟨h4, h2, h3, k, h5, h6⟩
+    · rintro ⟨h1, h2, h3, k, h4, h5⟩
+      rcases Nat.lt_or_gt_of_ne h3 with h | h
+      · exact Or.inr ⟨h, h2, h3, h1, k, h4, h5⟩
+      · exact Or.inl ⟨h, h1, h3.symm, h2, k, h5, h4⟩
+  constructor
+  · intro h
+    exact T.map (fun a b => (hse a b).mpr) (T.map (GE_of_SE hrow) h)
+  · intro h
+    exact T_star_of_T_ata hrow (T.map (fun a b => (hse a b).mp) h) (Or.inr (Nat.le_refl _))
+
+theorem firstcol_filter (nr nc : Nat) (col : Nat → List Nat) (r : Nat) (hr : r < nr) :
+    firstcol nc (fun c => (col c).filter (· < nr)) r = firstcol nc col r := by
+  unfold firstcol
+  congr 2
+  funext j
+  simp [hr]
+
+/-- row indices `≥ nr` are ignored by `sp_coletree` (their `firstcol` is the root marker) -/
+theorem coletree_filter (nr nc : Nat) (col : Nat → List Nat) :
+    coletree nr nc col = coletree nr nc (fun c => (col c).filter (· < nr)) := by
+  rw [coletree_eq_liu, coletree_eq_liu]
+  apply liu_congr
+  intro a b hba ha
+  unfold starNbrs
+  simp only [List.mem_map, List.mem_filter, decide_eq_true_eq]
+  constructor
+  · rintro ⟨r, hr, e⟩
+    have hrn : r < nr := by
+      by_contra c
+      have : ((Array.range nr).map (firstcol nc col)).getD r nc = nc := by
+        simp [Array.getD_eq_getD_getElem?, c]
+      omega
+    refine ⟨r, ⟨hr, hrn⟩, ?_⟩
+    rw [← e]
+    simp [Array.getD_eq_getD_getElem?, hrn, firstcol_filter nr nc col r hrn]
+  · rintro ⟨r, ⟨hr, hrn⟩, e⟩
+    refine ⟨r, hr, ?_⟩
+    rw [← e]
+    simp [Array.getD_eq_getD_getElem?, hrn, firstcol_filter nr nc col r hrn]
+
+/-- **Liu's algorithm computes the column elimination tree, every input**: row indices outside
+`0..nr-1` are ignored. -/
+theorem coletree_eq_etreeDef_filter (nr nc : Nat) (col : Nat → List Nat) :
+    coletree nr nc col = etreeDef nc (fun c => (col c).filter (· < nr)) := by
+  rw [coletree_filter]
+  apply coletree_eq_etreeDef
+  intro c _ r hr
+  simpa using (List.mem_filter.mp hr).2
+
 end Slu.Order
